@@ -2,7 +2,7 @@
   Simulation: a straight-line module-level program and the expression it is converted to reach the
   same user state, for every world.
 -/
-import OlVerif.Sem.Frame
+import OlVerif.Sem.Pattern
 import OlVerif.Lower.ModuleId
 import OlVerif.Lower.Binder
 import OlVerif.Lower.Reject
@@ -10,124 +10,39 @@ import OlVerif.Lower.Reject
 namespace OlVerif.Sem
 variable {U V : Type}
 
-/-- a sequence of expressions evaluated left to right, values dropped -/
-def Seq (W : World U V) (es : List Expr) (u : U) (t : T V) (u' : U) (t' : T V) : Prop :=
-  ∃ vs, EvL W es u t vs u' t'
-
-theorem Seq.nil (W : World U V) (u : U) (t : T V) : Seq W [] u t u t := ⟨[], .nil u t⟩
-
-theorem Seq.cons {W : World U V} {e : Expr} {es : List Expr} {u u1 u2 : U} {t t1 t2 : T V} {v : V}
-    (h : Ev W e u t v u1 t1) (hs : Seq W es u1 t1 u2 t2) : Seq W (e :: es) u t u2 t2 := by
-  obtain ⟨vs, hvs⟩ := hs
-  exact ⟨v :: vs, .cons h hvs⟩
-
-theorem evL_append {W : World U V} : ∀ {a b : List Expr} {u u1 u2 : U} {t t1 t2 : T V} {va vb : List V},
-    EvL W a u t va u1 t1 → EvL W b u1 t1 vb u2 t2 → EvL W (a ++ b) u t (va ++ vb) u2 t2
-  | _, _, _, _, _, _, _, _, _, _, .nil _ _, hb => hb
-  | _, _, _, _, _, _, _, _, _, _, .cons h hs, hb => .cons h (evL_append hs hb)
-
-theorem Seq.append {W : World U V} {a b : List Expr} {u u1 u2 : U} {t t1 t2 : T V}
-    (ha : Seq W a u t u1 t1) (hb : Seq W b u1 t1 u2 t2) : Seq W (a ++ b) u t u2 t2 := by
-  obtain ⟨va, ha⟩ := ha
-  obtain ⟨vb, hb⟩ := hb
-  exact ⟨va ++ vb, evL_append ha hb⟩
-
-theorem lookup_head (x : String) (v : V) (t : T V) : List.lookup x ((x, v) :: t) = some v := by
-  simp [List.lookup]
-
-theorem lookup_skip {x y : String} (h : x ≠ y) (v : V) (t : T V) : List.lookup x ((y, v) :: t) = List.lookup x t := by
-  have : (x == y) = false := by simpa using h
-  simp [List.lookup, this]
-
-theorem getAssign_module {n : Nsp} (hn : n.kind = .module) (x : String) (v : Expr) :
-    n.getAssign x v = .ok (.namedExpr x v) := by simp [Nsp.getAssign, hn]
-
-theorem getLoad_module {n : Nsp} (hn : n.kind = .module) (b : List String) (x : String) :
-    n.getLoad b x = .ok (.name x) := by simp [Nsp.getLoad, hn]
-
-theorem convertIndex_plain {i : Expr} (h : plainIndex i) : convertIndex i = i := by
-  cases i <;> simp [plainIndex] at h <;> simp [convertIndex]
-
-theorem isTemp_fresh (st : St) (p : String) : isTemp (st.fresh p).1 := by
-  unfold isTemp St.fresh
-  exact C09aux st.sup p
-where
-  C09aux (s : Supply) (p : String) : (s.fresh p).1.toList.take 5 = "__ol_".toList := by
-    rw [fresh_eq]; simp [String.toList_append]
-
-theorem fresh_ne (st st2 : St) (p q : String) (h : st.sup.next ≠ st2.sup.next) : (st.fresh p).1 ≠ (st2.fresh q).1 := by
-  intro he
-  exact h (fresh_inj st.sup st2.sup p q he)
-
-theorem fresh_next (st : St) (p : String) : (st.fresh p).2.sup.next = st.sup.next + 1 := rfl
-
 theorem ite_cases {α : Type} {c : Prop} [Decidable c] {a b : Except Err α} {r : α}
     (h : (if c then a else b) = .ok r) : (c ∧ a = .ok r) ∨ (¬ c ∧ b = .ok r) := by
   split at h
   · rename_i hc; exact Or.inl ⟨hc, h⟩
   · rename_i hc; exact Or.inr ⟨hc, h⟩
 
-/-- the flags that make the module prelude import helper modules -/
-def sameFlags (a b : St) : Prop :=
-  a.useItertools = b.useItertools ∧ a.useImportlib = b.useImportlib ∧ a.usePreset = b.usePreset
-
-theorem sameFlags_refl (a : St) : sameFlags a a := ⟨rfl, rfl, rfl⟩
-theorem sameFlags_fresh (a : St) (p : String) : sameFlags (a.fresh p).2 a := ⟨rfl, rfl, rfl⟩
-theorem sameFlags_trans {a b c : St} (h1 : sameFlags a b) (h2 : sameFlags b c) : sameFlags a c :=
-  ⟨h1.1.trans h2.1, h1.2.1.trans h2.2.1, h1.2.2.trans h2.2.2⟩
-
 /-! ### assignment targets fed from a helper variable -/
 
-theorem assignAuto_sim (W : World U V) {n : Nsp} (hn : n.kind = .module) {tg : Expr} (hs : SimpleT tg)
-    {v : V} {u u' : U} (ha : AssignT W tg v u u') (tmp : String) (htmp : isTemp tmp)
-    (t : T V) (hl : t.lookup tmp = some v) (st : St) (es : List Expr) (st' : St)
-    (h : assignAuto n false tg (.name tmp) st = .ok (es, st')) : Seq W es u t u' t ∧ st' = st := by
-  cases ha with
-  | name x v u hx =>
-      simp only [assignAuto] at h
-      obtain ⟨r, hr, h⟩ := bind_ok h
-      rw [getAssign_module hn] at hr
-      cases hr
-      cases pure_ok h
-      exact ⟨Seq.cons (.walrus x _ hx (.temp tmp u t v htmp hl)) (Seq.nil W _ _), rfl⟩
-  | attr o a ho hset =>
-      cases hs with
-      | attr _ _ hco =>
-        simp only [assignAuto] at h
-        obtain ⟨o', ho', h⟩ := bind_ok h
-        cases pure_ok h
-        rw [transf_module_id n hn [] o o' ho']
-        have f1 := (frame W ho hco).2 t
-        exact ⟨Seq.cons (.setattr o a _ f1 (.temp tmp _ t v htmp hl) hset) (Seq.nil W _ _), rfl⟩
-  | sub o i ho hi hset =>
-      cases hs with
-      | sub _ _ hco hci hp =>
-        simp only [assignAuto] at h
-        obtain ⟨i', hi', h⟩ := bind_ok h
-        obtain ⟨o', ho', h⟩ := bind_ok h
-        cases pure_ok h
-        rw [transf_module_id n hn [] o o' ho', transf_module_id n hn [] i i' hi', convertIndex_plain hp]
-        have f1 := (frame W ho hco).2 t
-        have f2 := (frame W hi hci).2 t
-        exact ⟨Seq.cons (.setitem o i _ f1 f2 (.temp tmp _ t v htmp hl) hset) (Seq.nil W _ _), rfl⟩
-
-theorem assignTargets_sim (W : World U V) {n : Nsp} (hn : n.kind = .module) (tmp : String) (htmp : isTemp tmp) {v : V} (t : T V)
-    (hl : t.lookup tmp = some v) : ∀ (ts : List Expr), (∀ tg ∈ ts, SimpleT tg) → ∀ {u u' : U}, AssignAll W ts v u u' →
-    ∀ (st : St) (es : List Expr) (st' : St), assignTargets n (.name tmp) ts st = .ok (es, st') → Seq W es u t u' t ∧ st' = st
-  | [], _, _, _, .nil _ _, st, es, st', h => by
-      simp only [assignTargets] at h; cases h; exact ⟨Seq.nil W _ _, rfl⟩
-  | tg :: ts, hs, _, _, .cons h1 h2, st, es, st', h => by
+theorem assignTargets_sim (W : World U V) (hS : LawfulSeq W) {n : Nsp} (hn : n.kind = .module) (tmp : String) (htmp : isTemp tmp) {v : V} :
+    ∀ (ts : List Expr), (∀ tg ∈ ts, SimpleT tg) → ∀ {u u' : U}, AssignAll W ts v u u' →
+    ∀ (t : T V) (st : St), LiveOk [tmp] st.sup.next → t.lookup tmp = some v →
+    ∀ (es : List Expr) (st' : St), assignTargets n (.name tmp) ts st = .ok (es, st') → (∃ t', Seq W es u t u' t') ∧ sameFlags st' st
+  | [], _, _, _, .nil _ _, t, st, _, _, es, st', h => by
+      simp only [assignTargets] at h; cases h; exact ⟨⟨t, Seq.nil W _ _⟩, sameFlags_refl _⟩
+  | tg :: ts, hs, _, _, .cons h1 h2, t, st, hlive, hl, es, st', h => by
       simp only [assignTargets] at h
       obtain ⟨⟨a, st1⟩, ha, h⟩ := bind_ok h
       obtain ⟨⟨b, st2⟩, hb, h⟩ := bind_ok h
       cases pure_ok h
-      have r1 := assignAuto_sim W hn (hs tg (by simp)) h1 tmp htmp t hl st a st1 ha
-      have r2 := assignTargets_sim W hn tmp htmp t hl ts (fun x hx => hs x (by simp [hx])) h2 st1 b st2 hb
-      exact ⟨Seq.append r1.1 r2.1, r2.2.trans r1.2⟩
+      obtain ⟨t1, r1, hx1, hm1, hf1⟩ := assignAuto_pure W hS hn tg (hs tg (by simp)) false h1 (.name tmp) [tmp] t st hlive
+        (pureOn_temp W (by simp) htmp hl) a st1 ha
+      have hl1 : t1.lookup tmp = some v := (hx1 tmp (by simp)).trans hl
+      obtain ⟨⟨t2, r2⟩, hf2⟩ := assignTargets_sim W hS hn tmp htmp ts (fun x hx => hs x (by simp [hx])) h2 t1 st1 (hlive.mono hm1) hl1 b st2 hb
+      exact ⟨⟨t2, Seq.append r1 r2⟩, sameFlags_trans hf2 hf1⟩
+
+theorem liveOk_single (st : St) (p : String) : LiveOk [(st.fresh p).1] (st.fresh p).2.sup.next := by
+  intro x hx
+  simp only [List.mem_singleton] at hx
+  exact ⟨st.sup.next, p, by rw [fresh_next]; omega, hx⟩
 
 /-! ### statements -/
 
-theorem lowerSimple_sim (W : World U V) (cx : Ctx) (hn : cx.nsp.kind = .module) {s : Stmt} (hs : SimpleS s)
+theorem lowerSimple_sim (W : World U V) (hS : LawfulSeq W) (cx : Ctx) (hn : cx.nsp.kind = .module) {s : Stmt} (hs : SimpleS s)
     (hnif : ∀ c b e, s ≠ .if_ c b e)
     {u u' : U} (hx : ExecS W s u u') (t : T V) (st : St) (es : List Expr) (st' : St)
     (h : lowerStmt cx s st = .ok (es, st')) : (∃ t', Seq W es u t u' t') ∧ sameFlags st' st := by
@@ -162,29 +77,54 @@ theorem lowerSimple_sim (W : World U V) (cx : Ctx) (hn : cx.nsp.kind = .module) 
           obtain ⟨⟨r, st2⟩, hr, h⟩ := bind_ok h
           cases pure_ok h
           have htmp := isTemp_fresh st "assign"
-          have r1 := assignTargets_sim W hn (st.fresh "assign").1 htmp ((_, _) :: t) (lookup_head _ _ t) ts hts hall _ r st2 hr
-          obtain ⟨r1a, rfl⟩ := r1
-          exact ⟨⟨_, Seq.cons (.walrusT _ value htmp fv) r1a⟩, sameFlags_fresh st "assign"⟩
-        · -- a single name target
+          obtain ⟨⟨t', r1⟩, hf⟩ := assignTargets_sim W hS hn (st.fresh "assign").1 htmp ts hts hall ((_, _) :: t) _ (liveOk_single st "assign")
+            (lookup_head _ _ t) r st2 hr
+          exact ⟨⟨t', Seq.cons (.walrusT _ value htmp fv) r1⟩, sameFlags_trans hf (sameFlags_fresh st "assign")⟩
+        · -- a single target that is a name or a pattern: the value expression is evaluated in place
           match ts, hne, hts, hall, hcond, h with
           | [tg], _, hts, hall, hcond, h =>
             cases hall with
             | cons h1 h2 =>
               cases h2
+              simp only [assignTargets] at h
+              obtain ⟨⟨a, st1⟩, ha, h⟩ := bind_ok h
+              obtain ⟨⟨b, st2⟩, hb, h⟩ := bind_ok h
+              cases ok_ok hb
+              cases pure_ok h
+              simp only [List.append_nil]
+              have hst := hts tg (by simp)
               cases h1 with
               | name x v u hxn =>
-                simp only [assignTargets, assignAuto] at h
-                obtain ⟨⟨a, st1⟩, ha, h⟩ := bind_ok h
+                simp only [assignAuto] at ha
                 obtain ⟨r, hr, ha⟩ := bind_ok ha
                 rw [getAssign_module hn] at hr
                 cases hr
                 cases pure_ok ha
-                obtain ⟨⟨b, st2⟩, hb, h⟩ := bind_ok h
-                cases ok_ok hb
-                cases pure_ok h
                 exact ⟨⟨t, Seq.cons (.walrus x value hxn fv) (Seq.nil W _ _)⟩, sameFlags_refl _⟩
               | attr o a _ _ => simp at hcond
               | sub o i _ _ _ => simp at hcond
+              | @tuple elts _ items _ u1 _ hit hlen heach =>
+                cases hst with
+                | tuple _ hallE =>
+                  simp only [assignAuto] at ha
+                  obtain ⟨⟨rest, st3⟩, hr, ha⟩ := bind_ok ha
+                  cases pure_ok ha
+                  have htmp := isTemp_fresh st "assign"
+                  obtain ⟨t', hseq, _, _, hfl⟩ := assignElts_pure W hS hn elts hallE heach (st.fresh "assign").1 htmp items 0 (fun j => by simp)
+                    [(st.fresh "assign").1] (((st.fresh "assign").1, W.tupleOf items) :: t) (st.fresh "assign").2 (liveOk_single st "assign")
+                    (by simp) (lookup_head _ _ _) elts.length rest st3 hr
+                  exact ⟨⟨t', Seq.cons (.walrusT _ _ htmp (.tupleCall value fv hit)) hseq⟩, sameFlags_trans hfl (sameFlags_fresh _ _)⟩
+              | @list elts _ items _ u1 _ hit hlen heach =>
+                cases hst with
+                | list _ hallE =>
+                  simp only [assignAuto] at ha
+                  obtain ⟨⟨rest, st3⟩, hr, ha⟩ := bind_ok ha
+                  cases pure_ok ha
+                  have htmp := isTemp_fresh st "assign"
+                  obtain ⟨t', hseq, _, _, hfl⟩ := assignElts_pure W hS hn elts hallE heach (st.fresh "assign").1 htmp items 0 (fun j => by simp)
+                    [(st.fresh "assign").1] (((st.fresh "assign").1, W.tupleOf items) :: t) (st.fresh "assign").2 (liveOk_single st "assign")
+                    (by simp) (lookup_head _ _ _) elts.length rest st3 hr
+                  exact ⟨⟨t', Seq.cons (.walrusT _ _ htmp (.tupleCall value fv hit)) hseq⟩, sameFlags_trans hfl (sameFlags_fresh _ _)⟩
           | t1 :: t2 :: rest, _, _, _, hcond, _ => simp at hcond
   | augName x op value hxn hload hval hiop =>
       cases hs with
@@ -249,7 +189,7 @@ theorem lowerSimple_sim (W : World U V) (cx : Ctx) (hn : cx.nsp.kind = .module) 
           have f1 := (frame W ho hco).2 t
           have f2 := (frame W hi hci).2
           refine ⟨⟨_, Seq.cons (.walrusT _ o hO f1) (Seq.cons (.walrusT _ i hS (f2 _)) (Seq.cons (.walrusT _ _ hT
-            (.sub _ _ (.temp _ _ _ _ hO ((lookup_skip hOS _ _).trans (lookup_head _ _ _))) (.temp _ _ _ _ hS (lookup_head _ _ _)) hget))
+            (.sub _ _ rfl (.temp _ _ _ _ hO ((lookup_skip hOS _ _).trans (lookup_head _ _ _))) (.temp _ _ _ _ hS (lookup_head _ _ _)) hget))
             (Seq.cons (.setitem _ _ _
               (.temp _ _ _ _ hO ((lookup_skip hOT _ _).trans ((lookup_skip hOS _ _).trans (lookup_head _ _ _))))
               (.temp _ _ _ _ hS ((lookup_skip hST _ _).trans (lookup_head _ _ _)))
@@ -303,34 +243,16 @@ theorem simple_not_direct {s : Stmt} (hs : SimpleS s) : s.isDirect = false := by
 
 /-! ### the fragment never requests helper imports (static) -/
 
-theorem assignAuto_st {n : Nsp} (hn : n.kind = .module) {tg : Expr} (hs : SimpleT tg) (v : Expr) (st : St) (es : List Expr) (st' : St)
-    (h : assignAuto n false tg v st = .ok (es, st')) : st' = st := by
-  cases hs with
-  | name x =>
-      simp only [assignAuto] at h
-      obtain ⟨r, _, h⟩ := bind_ok h
-      cases pure_ok h; rfl
-  | attr o a _ =>
-      simp only [assignAuto] at h
-      obtain ⟨o', _, h⟩ := bind_ok h
-      cases pure_ok h; rfl
-  | sub o i _ _ _ =>
-      simp only [assignAuto] at h
-      obtain ⟨i', _, h⟩ := bind_ok h
-      obtain ⟨o', _, h⟩ := bind_ok h
-      cases pure_ok h; rfl
-
-theorem assignTargets_st {n : Nsp} (hn : n.kind = .module) (v : Expr) : ∀ (ts : List Expr), (∀ tg ∈ ts, SimpleT tg) →
-    ∀ (st : St) (es : List Expr) (st' : St), assignTargets n v ts st = .ok (es, st') → st' = st
-  | [], _, st, es, st', h => by simp only [assignTargets] at h; cases h; rfl
+theorem assignTargets_flags {n : Nsp} (hn : n.kind = .module) (v : Expr) : ∀ (ts : List Expr), (∀ tg ∈ ts, SimpleT tg) →
+    ∀ (st : St) (es : List Expr) (st' : St), assignTargets n v ts st = .ok (es, st') → sameFlags st' st
+  | [], _, st, es, st', h => by simp only [assignTargets] at h; cases h; exact sameFlags_refl _
   | tg :: ts, hs, st, es, st', h => by
       simp only [assignTargets] at h
       obtain ⟨⟨a, st1⟩, ha, h⟩ := bind_ok h
       obtain ⟨⟨b, st2⟩, hb, h⟩ := bind_ok h
       cases pure_ok h
-      have e1 := assignAuto_st hn (hs tg (by simp)) v st a st1 ha
-      have e2 := assignTargets_st hn v ts (fun x hx => hs x (by simp [hx])) st1 b st2 hb
-      exact e2.trans e1
+      exact sameFlags_trans (assignTargets_flags hn v ts (fun x hx => hs x (by simp [hx])) st1 b st2 hb)
+        (assignAuto_flags hn tg (hs tg (by simp)) false v st a st1 ha)
 
 mutual
   theorem lowerStmt_flags : ∀ (s : Stmt) (cx : Ctx), cx.nsp.kind = .module → cx.loops = [] →
@@ -363,12 +285,8 @@ mutual
           rcases ite_cases h with ⟨_, h⟩ | ⟨_, h⟩
           · obtain ⟨⟨r, st2⟩, hr, h⟩ := bind_ok h
             cases pure_ok h
-            have e := assignTargets_st hn _ ts hts _ r st2 hr
-            subst e
-            exact sameFlags_fresh st "assign"
-          · have e := assignTargets_st hn _ ts hts _ _ _ h
-            subst e
-            exact sameFlags_refl _
+            exact sameFlags_trans (assignTargets_flags hn _ ts hts _ r st2 hr) (sameFlags_fresh st "assign")
+          · exact assignTargets_flags hn _ ts hts _ _ _ h
     | .augAssign tg op value, cx, hn, _, hs, st, es, st', h => by
         cases hs with
         | aug _ _ _ hst hcv =>
@@ -389,6 +307,8 @@ mutual
             obtain ⟨i', _, h⟩ := bind_ok h
             cases pure_ok h
             exact sameFlags_trans (sameFlags_fresh _ _) (sameFlags_trans (sameFlags_fresh _ _) (sameFlags_fresh _ _))
+          | tuple _ _ => cases h
+          | list _ _ => cases h
     | .while_ .., _, _, _, hs, _, _, _, _ => by cases hs
     | .for_ .., _, _, _, hs, _, _, _, _ => by cases hs
     | .break_, _, _, _, hs, _, _, _, _ => by cases hs
@@ -421,7 +341,7 @@ end
 /-! ### statements and blocks, with `if` at any nesting -/
 
 mutual
-  theorem lowerStmt_sim (W : World U V) (hW : Lawful W) : ∀ (s : Stmt) (cx : Ctx), cx.nsp.kind = .module → cx.loops = [] →
+  theorem lowerStmt_sim (W : World U V) (hW : Lawful W) (hS : LawfulSeq W) : ∀ (s : Stmt) (cx : Ctx), cx.nsp.kind = .module → cx.loops = [] →
       SimpleS s → ∀ {u u' : U}, ExecS W s u u' → ∀ (t : T V) (st : St) (es : List Expr) (st' : St),
       lowerStmt cx s st = .ok (es, st') → (∃ t', Seq W es u t u' t') ∧ sameFlags st' st
     | .if_ test body orelse, cx, hn, hl, hs, u, u', hx, t, st, es, st', h => by
@@ -439,7 +359,7 @@ mutual
           cases hx with
           | ifTrue _ _ _ htest htr hxb =>
             have ft := (frame W htest hct).2 t
-            obtain ⟨⟨tb, rb⟩, _⟩ := lowerBlock_sim W hW body cx hn hl hsb hxb t st b st1 hb
+            obtain ⟨⟨tb, rb⟩, _⟩ := lowerBlock_sim W hW hS body cx hn hl hsb hxb t st b st1 hb
             obtain ⟨v, hv⟩ := wrap_sim W cx.cfg rb
             cases hst : cx.cfg.ifStyle with
             | ifExpr =>
@@ -458,7 +378,7 @@ mutual
                 exact ⟨⟨tb, Seq.cons (.orT _ _ hand (hW.list _ _ _)) (Seq.nil W _ _)⟩, hfl⟩
           | ifFalse _ _ _ htest htr hxb =>
             have ft := (frame W htest hct).2 t
-            obtain ⟨⟨to, ro⟩, _⟩ := lowerBlock_sim W hW orelse cx hn hl hso hxb t st1 o st2 ho
+            obtain ⟨⟨to, ro⟩, _⟩ := lowerBlock_sim W hW hS orelse cx hn hl hso hxb t st1 o st2 ho
             obtain ⟨v, hv⟩ := wrap_sim W cx.cfg ro
             cases hst : cx.cfg.ifStyle with
             | ifExpr =>
@@ -477,11 +397,11 @@ mutual
                 -- the test is false: `and` yields its value, `or` takes its truth value again (the same, by `retest`)
                 have hand := Ev.andF (W := W) test (.list [wrapExprs cx.cfg b]) ft htr
                 exact ⟨⟨to, Seq.cons (.orF _ _ hand (hW.retest _ _ _ _ htr) hv) (Seq.nil W _ _)⟩, hfl⟩
-    | .expr e, cx, hn, _, hs, _, _, hx, t, st, es, st', h => lowerSimple_sim W cx hn hs (by intro c b e h; cases h) hx t st es st' h
-    | .pass_, cx, hn, _, hs, _, _, hx, t, st, es, st', h => lowerSimple_sim W cx hn hs (by intro c b e h; cases h) hx t st es st' h
-    | .global_ _, cx, hn, _, hs, _, _, hx, t, st, es, st', h => lowerSimple_sim W cx hn hs (by intro c b e h; cases h) hx t st es st' h
-    | .assign _ _, cx, hn, _, hs, _, _, hx, t, st, es, st', h => lowerSimple_sim W cx hn hs (by intro c b e h; cases h) hx t st es st' h
-    | .augAssign _ _ _, cx, hn, _, hs, _, _, hx, t, st, es, st', h => lowerSimple_sim W cx hn hs (by intro c b e h; cases h) hx t st es st' h
+    | .expr e, cx, hn, _, hs, _, _, hx, t, st, es, st', h => lowerSimple_sim W hS cx hn hs (by intro c b e h; cases h) hx t st es st' h
+    | .pass_, cx, hn, _, hs, _, _, hx, t, st, es, st', h => lowerSimple_sim W hS cx hn hs (by intro c b e h; cases h) hx t st es st' h
+    | .global_ _, cx, hn, _, hs, _, _, hx, t, st, es, st', h => lowerSimple_sim W hS cx hn hs (by intro c b e h; cases h) hx t st es st' h
+    | .assign _ _, cx, hn, _, hs, _, _, hx, t, st, es, st', h => lowerSimple_sim W hS cx hn hs (by intro c b e h; cases h) hx t st es st' h
+    | .augAssign _ _ _, cx, hn, _, hs, _, _, hx, t, st, es, st', h => lowerSimple_sim W hS cx hn hs (by intro c b e h; cases h) hx t st es st' h
     | .while_ .., _, _, _, hs, _, _, _, _, _, _, _, _ => by cases hs
     | .for_ .., _, _, _, hs, _, _, _, _, _, _, _, _ => by cases hs
     | .break_, _, _, _, hs, _, _, _, _, _, _, _, _ => by cases hs
@@ -495,7 +415,7 @@ mutual
     | .importFrom .., _, _, _, hs, _, _, _, _, _, _, _, _ => by cases hs
     | .other .., _, _, _, hs, _, _, _, _, _, _, _, _ => by cases hs
 
-  theorem lowerBlock_sim (W : World U V) (hW : Lawful W) : ∀ (ss : List Stmt) (cx : Ctx), cx.nsp.kind = .module → cx.loops = [] →
+  theorem lowerBlock_sim (W : World U V) (hW : Lawful W) (hS : LawfulSeq W) : ∀ (ss : List Stmt) (cx : Ctx), cx.nsp.kind = .module → cx.loops = [] →
       (∀ s ∈ ss, SimpleS s) → ∀ {u u' : U}, ExecB W ss u u' → ∀ (t : T V) (st : St) (es : List Expr) (st' : St),
       lowerBlock cx ss st = .ok (es, st') → (∃ t', Seq W es u t u' t') ∧ sameFlags st' st
     | [], cx, _, _, _, _, _, .nil _, t, st, es, st', h => by
@@ -503,7 +423,7 @@ mutual
     | s :: ss, cx, hn, hl, hs, _, _, .cons h1 h2, t, st, es, st', h => by
         simp only [lowerBlock] at h
         obtain ⟨⟨a, st1⟩, ha, h⟩ := bind_ok h
-        obtain ⟨⟨t1, r1⟩, f1⟩ := lowerStmt_sim W hW s cx hn hl (hs s (by simp)) h1 t st a st1 ha
+        obtain ⟨⟨t1, r1⟩, f1⟩ := lowerStmt_sim W hW hS s cx hn hl (hs s (by simp)) h1 t st a st1 ha
         simp only [simple_not_direct (hs s (by simp)), Bool.false_or, flowKind_module hn hl, mayInt] at h
         rcases ite_cases h with ⟨hemp, h⟩ | ⟨_, h⟩
         · cases pure_ok h
@@ -514,13 +434,13 @@ mutual
         · simp only [Bool.false_eq_true, if_false] at h
           obtain ⟨⟨rest, st2⟩, hr, h⟩ := bind_ok h
           cases pure_ok h
-          obtain ⟨⟨t2, r2⟩, f2⟩ := lowerBlock_sim W hW ss cx hn hl (fun x hx => hs x (by simp [hx])) h2 t1 st1 rest st2 hr
+          obtain ⟨⟨t2, r2⟩, f2⟩ := lowerBlock_sim W hW hS ss cx hn hl (fun x hx => hs x (by simp [hx])) h2 t1 st1 rest st2 hr
           exact ⟨⟨t2, Seq.append r1 r2⟩, sameFlags_trans f2 f1⟩
 end
 
 /-! ### the module -/
 
-theorem goModule_sim (W : World U V) (hW : Lawful W) (cx : Ctx) (hn : cx.nsp.kind = .module) (hl : cx.loops = []) :
+theorem goModule_sim (W : World U V) (hW : Lawful W) (hS : LawfulSeq W) (cx : Ctx) (hn : cx.nsp.kind = .module) (hl : cx.loops = []) :
     ∀ (ss : List Stmt), (∀ s ∈ ss, SimpleS s) → ∀ {u u' : U}, ExecB W ss u u' → ∀ (t : T V) (st : St) (es : List Expr) (st' : St),
       lowerFull.goModule cx ss st = .ok (es, st') → (∃ t', Seq W es u t u' t') ∧ sameFlags st' st
   | [], _, _, _, .nil _, t, st, es, st', h => by
@@ -530,15 +450,15 @@ theorem goModule_sim (W : World U V) (hW : Lawful W) (cx : Ctx) (hn : cx.nsp.kin
       obtain ⟨⟨a, st1⟩, ha, h⟩ := bind_ok h
       obtain ⟨⟨b, st2⟩, hb, h⟩ := bind_ok h
       cases pure_ok h
-      obtain ⟨⟨t1, r1⟩, f1⟩ := lowerStmt_sim W hW s cx hn hl (hs s (by simp)) h1 t st a st1 ha
-      obtain ⟨⟨t2, r2⟩, f2⟩ := goModule_sim W hW cx hn hl ss (fun x hx => hs x (by simp [hx])) h2 t1 st1 b st2 hb
+      obtain ⟨⟨t1, r1⟩, f1⟩ := lowerStmt_sim W hW hS s cx hn hl (hs s (by simp)) h1 t st a st1 ha
+      obtain ⟨⟨t2, r2⟩, f2⟩ := goModule_sim W hW hS cx hn hl ss (fun x hx => hs x (by simp [hx])) h2 t1 st1 b st2 hb
       exact ⟨⟨t2, Seq.append r1 r2⟩, sameFlags_trans f2 f1⟩
 
 /-- **Module code of the fragment means the same after conversion - for every lawful world.**  Whenever
     the source statements run from user state `u` to `u'`, the one expression the conversion returns
     evaluates from `u` to `u'` (the helper variables it creates are in `t'`, apart from the user
     state), under either wrapper and either if-style. -/
-theorem module_sim (W : World U V) (hW : Lawful W) (cfg : Cfg) (root : SymScope) (body : List Stmt) (hs : ∀ s ∈ body, SimpleS s)
+theorem module_sim (W : World U V) (hW : Lawful W) (hS : LawfulSeq W) (cfg : Cfg) (root : SymScope) (body : List Stmt) (hs : ∀ s ∈ body, SimpleS s)
     (e : Expr) (h : lowerFull cfg root body = .ok e) {u u' : U} (hx : ExecB W body u u') :
     ∃ v t', Ev W e u [] v u' t' := by
   unfold lowerFull at h
@@ -547,7 +467,7 @@ theorem module_sim (W : World U V) (hW : Lawful W) (cfg : Cfg) (root : SymScope)
   obtain ⟨⟨b, st⟩, hb, h⟩ := bind_ok h
   cases pure_ok h
   have hk : g.kind = .module := generateNsp_kind hg
-  obtain ⟨⟨t', r⟩, fl⟩ := goModule_sim W hW { cfg := cfg, nsp := g, loops := [], fnUsed := false } hk rfl body hs hx [] _ b st hb
+  obtain ⟨⟨t', r⟩, fl⟩ := goModule_sim W hW hS { cfg := cfg, nsp := g, loops := [], fnUsed := false } hk rfl body hs hx [] _ b st hb
   obtain ⟨f1, f2, f3⟩ := fl
   simp only [] at f1 f2 f3
   simp only [f1, f2, f3, Bool.false_eq_true, if_false]
